@@ -1660,6 +1660,7 @@ Normalize = ModuleWrapper(NormalizeModule, toggle_dims=False)
 WhitenData = ModuleWrapper(WhitenDataModule, toggle_dims=False)
 GaussianMaskSplitter = ModuleWrapper(GaussianMaskSplitterModule, toggle_dims=True)
 UniformMaskSplitter = ModuleWrapper(UniformMaskSplitterModule, toggle_dims=True)
+HalfMaskSplitter = ModuleWrapper(HalfMaskSplitterModule, toggle_dims=True)
 
 
 class ToTensor(DirectTransform):
@@ -2499,7 +2500,7 @@ def build_mri_transforms(
             else (
                 UniformMaskSplitter(**mask_splitter_kwargs)
                 if mask_split_type == MaskSplitterType.UNIFORM
-                else HalfMaskSplitterModule(
+                else HalfMaskSplitter(
                     **{k: v for k, v in mask_splitter_kwargs.items() if k != "ratio"},
                     direction=mask_split_half_direction,
                 )
